@@ -7,6 +7,7 @@ import json
 
 from hypothesis import strategies as st
 
+from vf import gen
 from vf.core import Fails, Target, attempt, bx, hx, raised
 from vf.env.cli import FAKE_SIG, FAKE_TX, accepted_options, run_cli
 from vf.ref import base58 as b58ref
@@ -913,7 +914,7 @@ def conversion_cases(draw):
             head = draw(st.sampled_from([b"\x0b", b"\x0b\x0b", b"\x0b\x10", b"\x0e\x10", b"\x00\x0b", b"\xb0\x0b", b"\x0d\x0a", b"\x0a"]))
             data = (head + draw(st.binary(max_size=24)))[:64]
         else:
-            data = draw(st.binary(max_size=64))
+            data = draw(gen.sized_binary(64))
         pair = draw(st.sampled_from(FORMAT_PAIRS))
         return {
             "mode": "bytes",
